@@ -32,6 +32,10 @@ pub enum Fault {
     BgzfCorruptData,
     BgzfCorruptCrc,
     ReadErrorAtRecord,
+    /// the configuration itself is inadmissible: a listed sample that is not in the input
+    UnknownSample,
+    /// projection target larger than the population / of the wrong dimensionality
+    BadProjection,
 }
 
 #[derive(Clone, Debug, Serialize, Deserialize)]
@@ -50,9 +54,12 @@ pub struct Case {
     /// a second failure later in the stream (checks "first")
     pub second: Option<Fault>,
     pub container: Container,
-    /// number of -v flags (0 = default verbosity); the skip accounting must not depend on it
+    /// number of -v flags (0 = default verbosity, 3 = -q); the skip accounting must not depend on it
     #[serde(default)]
     pub verbosity: u8,
+    /// L2: the sample list is passed through a samples file (-S) instead of -s
+    #[serde(default)]
+    pub samples_file: bool,
 }
 
 pub struct C10;
@@ -206,6 +213,8 @@ impl Prop for C10 {
             Fault::BgzfCorruptData,
             Fault::BgzfCorruptCrc,
             Fault::ReadErrorAtRecord,
+            Fault::UnknownSample,
+            Fault::BadProjection,
         ];
         let fault = if l2 { *rng.pick(&l2_faults) } else { *rng.pick(&l1_faults) };
         if fault == Fault::StrictViolation || (fault == Fault::None && rng.chance(1, 2)) {
@@ -238,7 +247,8 @@ impl Prop for C10 {
             positions,
             second,
             container,
-            verbosity: *rng.pick(&[0u8, 0, 1, 2]),
+            verbosity: if l2 { *rng.pick(&[0u8, 0, 1, 2, 3]) } else { *rng.pick(&[0u8, 0, 1, 2]) },
+            samples_file: l2 && rng.chance(1, 3),
         }
     }
 
@@ -310,6 +320,9 @@ impl Prop for C10 {
         if case.verbosity != 0 {
             v.push(Case { verbosity: 0, ..case.clone() });
         }
+        if case.samples_file {
+            v.push(Case { samples_file: false, ..case.clone() });
+        }
         if case.callset.extra_info {
             let mut cs = case.callset.clone();
             cs.extra_info = false;
@@ -327,7 +340,7 @@ impl Prop for C10 {
             "records": case.callset.recs.len(), "samples": case.callset.samples.len(),
             "config": case.cfg, "fault": format!("{:?}", case.fault), "second_fault": format!("{:?}", case.second),
             "fault_positions": match &case.positions { Positions::All => "every record index".to_string(), Positions::List(l) => format!("{l:?}") },
-            "container": case.container.name(), "verbosity_flags": case.verbosity,
+            "container": case.container.name(), "verbosity_flags": case.verbosity, "samples_via_file": case.samples_file,
             "first_record": case.callset.recs.first().map(|r| case.callset.rec_text(r)),
         })
     }
@@ -368,6 +381,8 @@ impl Prop for C10 {
             "fault.l2.BcfRecordCut",
             "fault.l2.BgzfCorruptData",
             "fault.l2.ReadErrorAtRecord",
+            "fault.l2.UnknownSample",
+            "fault.l2.BadProjection",
             "all_or_nothing_checked",
         ]
     }
@@ -663,15 +678,28 @@ fn parse_skipped(stderr: &str) -> (Option<(usize, usize)>, Vec<String>) {
     (summary, sites)
 }
 
-fn l2_create(ctx: &mut Ctx, cfg: &Config, bytes: &[u8], plan: Option<Plan>, verbose: u8) -> ChildResult {
+fn l2_create(ctx: &mut Ctx, cfg: &Config, bytes: &[u8], plan: Option<Plan>, verbose: u8, samples_file: bool) -> ChildResult {
     let mut args = vec!["create".to_string()];
-    args.extend(cfg.cli_args());
+    let mut files = vec![("in.dat".to_string(), gen::hex(bytes))];
+    if samples_file {
+        let (a, content) = cfg.cli_args_with_samples_file("@DIR@/samples.txt");
+        args.extend(a);
+        if let Some(c) = content {
+            files.push(("samples.txt".into(), gen::hex(&c)));
+        }
+    } else {
+        args.extend(cfg.cli_args());
+    }
     if cfg.project.is_some() {
         args.push("--precision".into());
         args.push("12".into());
     }
-    for _ in 0..verbose {
-        args.push("-v".into());
+    if verbose == 3 {
+        args.push("-q".into());
+    } else {
+        for _ in 0..verbose {
+            args.push("-v".into());
+        }
     }
     args.push("@DIR@/in.dat".into());
     let child = Child {
@@ -679,7 +707,7 @@ fn l2_create(ctx: &mut Ctx, cfg: &Config, bytes: &[u8], plan: Option<Plan>, verb
         env: vec![],
         stdin: Stdin::Null,
         plan,
-        files: vec![("in.dat".into(), gen::hex(bytes))],
+        files,
     };
     let r = l2::run_child(ctx, &child);
     l2::cleanup(&r);
@@ -697,7 +725,28 @@ fn run_l2_at(case: &Case, i: usize, ctx: &mut Ctx, out: &mut Outcome) {
         out.count("fault_not_applicable", 1);
         return;
     };
-    let r = l2_create(ctx, &cfg, &bytes, plan, case.verbosity);
+    // configuration faults: the record stream is fine, the request is not
+    match case.fault {
+        Fault::UnknownSample => {
+            let list = cfg.sel.get_or_insert_with(|| vec![(cs.samples[0].clone(), None)]);
+            let at = i % (list.len() + 1);
+            list.insert(at, ("no_such_sample".to_string(), if i % 2 == 0 { None } else { Some("P9".to_string()) }));
+            cfg.project = None;
+        }
+        Fault::BadProjection => {
+            let sizes = cfg.pop_sizes(&cs.samples);
+            let mut shape: Vec<usize> = sizes.iter().map(|s| 2 * s + 1).collect();
+            match i % 3 {
+                0 => shape[i % sizes.len()] += 1 + i,
+                1 => shape.push(3),
+                _ => shape[i % sizes.len()] = 0,
+            }
+            cfg.project = Some(shape);
+            cfg.strict = false;
+        }
+        _ => {}
+    }
+    let r = l2_create(ctx, &cfg, &bytes, plan, case.verbosity, case.samples_file);
     out.evals += 1;
     out.count("l2.runs", 1);
     out.steps += r.events.len() as u64 + cs.recs.len() as u64;
@@ -737,6 +786,25 @@ fn run_l2_at(case: &Case, i: usize, ctx: &mut Ctx, out: &mut Outcome) {
         out.count("l2.panic_seen", 1);
         return;
     }
+    // a create run that reports success has written its spectrum
+    if r.ok() && !r.stdout.starts_with(b"#SHAPE=<") {
+        out.violate(
+            "success_without_output",
+            format!("C10 L2 exit 0 but no spectrum on stdout ({:?})", case.fault),
+            format!("{} ; stdout {} bytes", detail(), r.stdout.len()),
+        );
+        return;
+    }
+    if matches!(case.fault, Fault::UnknownSample | Fault::BadProjection) {
+        if r.ok() {
+            out.violate(
+                "inadmissible_request_accepted",
+                format!("C10 L2 {:?}: the run must fail (non-zero exit, no spectrum)", case.fault),
+                detail(),
+            );
+        }
+        return;
+    }
     let stderr = r.stderr_text();
     let (summary, skipped_sites) = parse_skipped(&stderr);
     let proj = cfg.project.is_some();
@@ -765,11 +833,16 @@ fn run_l2_at(case: &Case, i: usize, ctx: &mut Ctx, out: &mut Outcome) {
                 );
             }
         }
+        Fault::None | Fault::PloidyUnselected | Fault::StrictViolation if case.verbosity == 3 => {
+            // -q: nothing is reported on stderr, so neither the conservation law nor "first skipped
+            // site" can be read off; the all-or-nothing clauses above were applied
+            out.count("l2.quiet_runs", 1);
+        }
         Fault::None | Fault::PloidyUnselected | Fault::StrictViolation => {
             if cfg.strict {
                 let mut c2 = cfg.clone();
                 c2.strict = false;
-                let relaxed = l2_create(ctx, &c2, &bytes, None, case.verbosity);
+                let relaxed = l2_create(ctx, &c2, &bytes, None, case.verbosity, case.samples_file);
                 out.evals += 1;
                 out.count("l2.runs", 1);
                 let (_, rsk) = parse_skipped(&relaxed.stderr_text());
